@@ -306,6 +306,9 @@ func genPtrCase(r *rand.Rand, cfg Cfg) Case {
 			}
 			ops = append(ops, opDel(s, k, m[k]))
 			delete(m, k)
+			if r.Intn(2) == 0 {
+				ops = append(ops, fmt.Sprintf("stat %d", s)) // IsDirty right after a delete (C13)
+			}
 		case x < 70:
 			ops = append(ops, fmt.Sprintf("get %d %d", s, pick(r, uni)))
 		case x < 73:
